@@ -1,12 +1,87 @@
-/- Driver operations of property C05 (ops are named "c05.<name>"). Core + Lean.Data.Json only. -/
+/- Driver operations of property C05 (ops are named "c05.<name>"). Core + Lean.Data.Json only.
+Byte strings travel as lower-case hex text (two characters per byte), rationals as [num, den]. -/
 import Reamber.Util.Json
+import Reamber.Drv.Timing
+import Reamber.Drv.C04
+import Reamber.Model.BMS
+import Reamber.Spec.BMS
 
-open Lean Reamber.J
+open Lean Reamber.J Reamber.Timing
 
 namespace Reamber.C05
 
-def handle (op : String) (_j : Json) : Except String Json :=
+open Reamber.BMS Reamber.C04
+
+def dictOf? {α} (f : Json → Except String α) (j : Json) : Except String (Dict α) :=
+  arrOf? (fun kv => match kv with
+    | Json.arr #[k, v] => do .ok ((← bytesOf? k), (← f v))
+    | _ => .error "dict entry expected [key, value]") j
+
+def hitOf? (j : Json) : Except String HitOut :=
+  match j with
+  | Json.arr #[c, s, o] => do .ok ⟨← natOf? c, ← bytesOf? s, ← ratOf? o⟩
+  | _ => .error "hit expected [col, sample, offset]"
+
+def holdOf? (j : Json) : Except String WHold :=
+  match j with
+  | Json.arr #[c, s, o, t] => do .ok ⟨← natOf? c, ← bytesOf? s, ← ratOf? o, ← ratOf? t⟩
+  | _ => .error "hold expected [col, sample, offset, tail]"
+
+def chartOf? (j : Json) : Except String WChart := do
+  .ok { title := ← bytesOf? (← field j "title"), artist := ← bytesOf? (← field j "artist"),
+        version := ← bytesOf? (← field j "version"), lnEnd := ← bytesOf? (← field j "ln_end"),
+        samples := ← dictOf? bytesOf? (← field j "samples"), misc := ← dictOf? bytesOf? (← field j "misc"),
+        bpms := ← getArr bcOffOfJson j "bpms", hits := ← getArr hitOf? j "hits", holds := ← getArr holdOf? j "holds" }
+
+/-- what the specification says about an in-memory time under the in-memory tempo list: is it on the snap grid
+of the tempo in force, the beat length there, the distance to a snapping tie -/
+def timeFacts (g : List Rat) (tm : List BcOff) (t : Rat) : Json :=
+  match (tm.filter (fun b => decide (b.offset ≤ t))).getLast? with
+  | none => Json.null
+  | some b =>
+    let bl := beatLen b.bpm
+    let r := frac ((t - b.offset) / bl)
+    let on := g.contains r
+    obj [("on_grid", Json.bool on), ("beat_len", ratToJson bl),
+         ("margin", if on then Json.null else ratToJson (rabs (tieMargin g r)))]
+
+/-- consecutive tempo points sit a whole number (≥ 1) of 4/4 measures apart -/
+def onMeasureLines : List BcOff → Bool
+  | a :: b :: rest =>
+    let d := (b.offset - a.offset) / measLen a.bpm a.met
+    decide (d.den = 1) && decide (0 < d) && onMeasureLines (b :: rest)
+  | _ => true
+
+def handle (op : String) (j : Json) : Except String Json := do
   match op with
+  | "c05.write" =>
+    let lay ← getLayout j
+    let dflt ← bytesOf? (← field j "no_sample_default")
+    let c ← chartOf? (← field j "chart")
+    let g := grid defaultMaxDiv
+    let tm := sortBcOff c.bpms
+    let facts := obj [("hits", listToJson (fun h => timeFacts g tm h.offset) c.hits),
+                      ("heads", listToJson (fun h => timeFacts g tm h.offset) c.holds),
+                      ("tails", listToJson (fun h => timeFacts g tm h.tail) c.holds),
+                      ("bpms", listToJson (fun b => timeFacts g tm b.offset) tm),
+                      ("on_measure_lines", Json.bool (onMeasureLines tm)),
+                      ("bpm_3dec", Json.bool (c.bpms.all (fun b => roundDec Generated.BMS.exbpmDecimals b.bpm == b.bpm)))]
+    let cells := match writeCells defaultGrid lay dflt c with | .ok cs => cs | .error _ => []
+    -- two written objects of one channel at the same position of the same measure (the property's "colliding")
+    let collide := (zipIdxFrom 0 cells).any fun a => (zipIdxFrom 0 cells).any fun b =>
+      a.1 < b.1 && a.2.measure = b.2.measure && a.2.channel = b.2.channel && a.2.idx * b.2.den = b.2.idx * a.2.den
+    let facts := facts.mergeObj (obj [("collision", Json.bool collide),
+                                      ("max_measure", intToJson (cells.foldl (fun m c => max m c.measure) 0))])
+    match write defaultGrid lay dflt c with
+    | .ok ls => .ok (obj [("ok", listToJson bytesToJson ls), ("facts", facts)])
+    | .error e => .ok (obj [("err", Json.str e.toString), ("facts", facts)])
+  | "c05.lines_valid" =>
+    let lines ← getArr bytesOf? j "lines"
+    .ok (okJson (listToJson (fun l => Json.bool (!(isDataLine l) || lineValid l)) lines))
+  | "c05.find_lcm" =>
+    let xs ← getArr natOf? j "xs"
+    let t ← getNat j "thr"
+    .ok (okJson (listToJson natToJson (findLcm xs t)))
   | _ => .error s!"unknown op {op}"
 
 end Reamber.C05
